@@ -447,12 +447,12 @@ func (c *caseState) verdict(op string, toks []string, impl, want string) string 
 	switch {
 	case emptyBound && strings.HasPrefix(impl, "err:"):
 		cls = "emptybound"
-	case carry:
-		cls = "prefixcarry"
 	case c.tEmpty:
 		cls = "emptykey"
 	case op == "getmut" || op == "itmut" || c.tProbe:
 		cls = "alias"
+	case carry:
+		cls = "prefixcarry" // fixed in /repo 94ec431b9d; named so that a regression is recognisable
 	}
 	return "VIOL:" + cls + "-" + c.be.name + " want=" + want
 }
